@@ -24,8 +24,8 @@ def StoreRel (s s' : St) (tid : Nat) : Prop :=
   s'.store = s.store ∨
   ∃ t i kv, s.thr tid = some t ∧ t.pc = .cApply i ∧ s'.store = entryOf kv t.commitTs :: s.store
 
-theorem enter_any_shape {c : SnapCfg} {s s' : St} {tid : Nat} {t : Txn} {m : Mark} {kind : WM.Kind} {k : Pc}
-    (h : enter c s tid t m kind k = some s') :
+theorem enter_any_shape {c : SnapCfg} {s s' : St} {tid : Nat} {t : Txn} {m : Mark} {call : Call} {k : Pc}
+    (h : enter c s tid t m call k = some s') :
     (∀ x, s'.thr x = if x = tid then some { t with pc := .call m s.wfresh k } else s.thr x) ∧ s'.store = s.store := by
   unfold enter at h
   split at h
@@ -237,13 +237,7 @@ theorem readAt_cons_newer (e : Entry) (st : List Entry) (k : Key) (r : Nat) (h :
 /-- a commit timestamp whose `Done` has not decremented is above the watermark -/
 theorem pending_above {c : SnapCfg} (hcf : c.wm.countsFirst = true) {s : St} (h : Inv c s) (ts : Nat)
     (hp : Pending s ts) (hcnt : 1 ≤ s.tm.nCounted ts) : s.tm.doneUntil < ts := by
-  have hn := WM.N.reachable hcf s.tm h.tmR
-  cases Nat.lt_or_ge s.tm.doneUntil ts with
-  | inl h1 => exact h1
-  | inr h1 =>
-    have := hn.m ts h1
-    have h2 := hp.2
-    omega
+  exact WM.above_mark c.wm hcf s.tm h.tmR ts hcnt hp.2
 
 /-- **the snapshot of a begun transaction does not move**: no step of any thread changes what a
 read at its read timestamp returns, for any key -/
